@@ -31,16 +31,22 @@ type C11Case struct {
 }
 
 var c11Paths = map[string][]string{
-	"metadata":    {"/metadata", "md", "/saml/v2/metadata", "entity.xml"},
+	"metadata":    {"/metadata", "md", "/saml/v2/metadata", "entity.xml", "/métadonnées", "meta data", "/md/"},
 	"certificate": {"certificate", "/cert", "keys/signing.crt"},
 	"callback":    {"login", "/login/callback", "cb"},
-	"sso":         {"SSO", "/sso", "auth/signon", "/a/b/c/sso"},
-	"slo":         {"SLO", "/slo", "auth/logout"},
-	"attribute":   {"attribute", "/attr", "query/attributes"},
+	"sso":         {"SSO", "/sso", "auth/signon", "/a/b/c/sso", "/saml/sso/", "sso/"},
+	"slo":         {"SLO", "/slo", "auth/logout", "saml/slo/"},
+	"attribute":   {"attribute", "/attr", "query/attributes", "/attr/"},
 }
 
 func genC11Case(t *rapid.T) C11Case {
 	idp := genIdPConfig(t, worldOpts{issuerModes: []string{"static", "static", "host", "forwarded"}, signingFlags: false})
+	if idp.IssuerMode == "static" && rapid.IntRange(0, 5).Draw(t, "oddissuer") == 0 {
+		idp.Issuer = rapid.SampledFrom([]string{"https://idp.example/métadonnées", "https://idp.example/tenant a", "https://idp.example/a%20b", "https://bücher.example/saml"}).Draw(t, "oddissuerv")
+		if idp.Insecure {
+			idp.Issuer = strings.Replace(idp.Issuer, "https://", "http://", 1)
+		}
+	}
 	idp.WantAuthRequestsSigned = rapid.SampledFrom([]string{"", "", "false", "0", "true", "1", "true", "1", "True", "TRUE", "T", "t", "False", "yes", "on", " true", "01"}).Draw(t, "want")
 	idp.Endpoints = map[string]world.EndpointSpec{}
 	names := []string{"metadata", "certificate", "callback", "sso", "slo", "attribute"}
